@@ -58,6 +58,8 @@ def make(c):
     return Q.bernoulli(alpha=c["alpha"]), None
   if k == "bits_auto":
     return Q.quantized_bits(c["bits"], c["int"], alpha=c["alpha"]), None
+  if k == "linear_auto":
+    return Q.quantized_linear(c["bits"], c["int"], alpha=c["alpha"]), None
   raise ValueError(k)
 
 
@@ -84,9 +86,9 @@ def main():
           x = np.concatenate([x, [mv, up(mv, 1), up(mv, -1), mv * 4]]).astype(np.float32)
       else:
         x = np.array([rnd.uniform(-2, 2) for _ in range(24)] + [0.0, 0.5, -0.5, 1.0, 3.0, -3.0], dtype=np.float32)
-        if c["kind"] == "bits_auto":
+        if c["kind"] in ("bits_auto", "linear_auto"):
           x = x.reshape(5, 6)
-      tf.keras.backend.set_learning_phase(1 if c.get("sr") else 0)
+      tf.keras.backend.set_learning_phase(1 if c.get("sr") == 1 else 0)
       try:
         g, r = grads(q, x, ref)
       finally:
